@@ -291,14 +291,97 @@ func c16Repair(maxN int) c16Case {
 	}}
 }
 
+// c16RepairTwoPolicies: the provider declares two repair policies with different tolerations and the node may match
+// both, with different transition times: a Delete needs SOME condition that has lasted ITS OWN policy's toleration.
+func c16RepairTwoPolicies() c16Case {
+	type pol struct {
+		typ corev1.NodeConditionType
+		tol time.Duration
+	}
+	pols := []pol{{"BadNode", 30 * time.Minute}, {"AcceleratedHardwareReady", 10 * time.Minute}}
+	// per condition: absent, healthy, or unhealthy for (toleration + off)
+	offs := []time.Duration{-5 * time.Minute, -time.Second, 0, time.Second}
+	states := 2 + len(offs)
+	pools := []struct{ n, u int }{{5, 1}, {5, 2}, {1, 1}}
+	return c16Case{name: "node-repair-two-policies", n: enum.Size(len(pools), states, states), run: func(i int64, run *explore.Run, l *ev.Local) {
+		d := enum.Odo(i, len(pools), states, states)
+		pc := pools[d[0]]
+		w := world.New(world.Options{NodeRepair: true})
+		w.CP.Catalog[""] = world.BuildCatalog(K1)
+		for _, p := range pols {
+			w.CP.Repair = append(w.CP.Repair, cloudprovider.RepairPolicy{ConditionType: p.typ, ConditionStatus: corev1.ConditionFalse, TolerationDuration: p.tol})
+		}
+		w.Add(world.NodeClass(), world.NodePool("default"))
+		var target *corev1.Node
+		var targetNC *v1.NodeClaim
+		justified, unhealthyTarget := false, false
+		var descs []string
+		for k := 0; k < pc.n; k++ {
+			nc, node := w.BuildNode(world.NodeSpec{Name: fmt.Sprintf("n%d", k), Pool: "default", Type: K1[0], Offer: K1[0].Offers[0]})
+			if k == 0 {
+				for j, p := range pols {
+					switch st := d[1+j]; {
+					case st == 0:
+						descs = append(descs, string(p.typ)+"=absent")
+					case st == 1:
+						node.Status.Conditions = append(node.Status.Conditions, corev1.NodeCondition{Type: p.typ, Status: corev1.ConditionTrue, LastTransitionTime: metaT(world.Epoch.Add(-2 * time.Hour))})
+						descs = append(descs, string(p.typ)+"=healthy")
+					default:
+						off := offs[st-2]
+						node.Status.Conditions = append(node.Status.Conditions, corev1.NodeCondition{Type: p.typ, Status: corev1.ConditionFalse, LastTransitionTime: metaT(world.Epoch.Add(-p.tol).Add(-off))})
+						descs = append(descs, fmt.Sprintf("%s=unhealthy for its toleration %v%+v", p.typ, p.tol, off))
+						unhealthyTarget = true
+						if off >= 0 {
+							justified = true
+						}
+					}
+				}
+				w.EnvUpdate(node)
+				target, targetNC = node, nc
+			} else if k < pc.u {
+				node.Status.Conditions = append(node.Status.Conditions, corev1.NodeCondition{Type: "BadNode", Status: corev1.ConditionFalse, LastTransitionTime: metaT(world.Epoch.Add(-2 * time.Hour))})
+				w.EnvUpdate(node)
+			}
+		}
+		unhealthy := pc.u
+		if !unhealthyTarget {
+			unhealthy--
+		}
+		taken := w.AttachFaults(run, nil)
+		ctrl := health.NewController(w.Client, w.CP, w.Clock, w.Rec)
+		obj := &corev1.Node{}
+		must(w.Raw.Get(w.Ctx, client.ObjectKeyFromObject(target), obj))
+		_, _ = ctrl.Reconcile(w.Ctx, obj)
+		att, _ := deletesOf(w, "NodeClaim", targetNC.Name)
+		threshold := (pc.n + 4) / 5
+		desc := fmt.Sprintf("repair/two policies: node with %v in a pool of %d with %d unhealthy (allowed %d) faults=%v", descs, pc.n, unhealthy, threshold, *taken)
+		if att > 0 && !justified {
+			l.Violation("repair: deleted before the toleration elapsed", desc+": no condition of the node has lasted its own policy's toleration", map[string]any{"calls": callStrings(w)})
+		}
+		if att > 0 && unhealthy > threshold {
+			l.Violation("repair: deleted although more than 20% of the pool is unhealthy", desc, map[string]any{"calls": callStrings(w)})
+		}
+		if att > 0 && injectedOn(*taken, "list Node") {
+			l.Violation("repair: deleted although the node list failed", desc, map[string]any{"calls": callStrings(w)})
+		}
+		l.Outcome(fmt.Sprintf("repair(two policies) deleted=%v", att > 0))
+		if att > 0 || len(*taken) > 0 {
+			l.Nontrivial(desc)
+		}
+		if i == 17 && len(*taken) == 0 {
+			l.Sample(map[string]any{"case": desc, "calls": callStrings(w)})
+		}
+	}}
+}
+
 func init() {
 	register("C16", "fault_enumeration", func(r *ev.Rec) {
 		bound, maxN := 1, 6
 		if r.Tier == "thorough" {
 			bound, maxN = 2, 10
 		}
-		cases := []c16Case{c16Expiration(), c16GC(), c16Liveness(), c16Repair(maxN)}
-		r.Rule = fmt.Sprintf("four drivers (expiration, garbage collection, liveness via the lifecycle controller, node repair) over full state x clock-offset products (offsets -1s/0/+1s around each threshold; repair pools of 1..%d nodes with every unhealthy count); "+
+		cases := []c16Case{c16Expiration(), c16GC(), c16Liveness(), c16Repair(maxN), c16RepairTwoPolicies()}
+		r.Rule = fmt.Sprintf("four drivers (expiration, garbage collection, liveness via the lifecycle controller, node repair) over full state x clock-offset products (offsets -1s/0/+1s around each threshold; repair pools of 1..%d nodes with every unhealthy count; a provider with two repair policies of different tolerations and a node matching none / one / both, each condition absent / healthy / unhealthy for its own toleration -5m/-1s/0/+1s); "+
 			"each state is reconciled once fault-free and once for every way of failing <=%d of its API / provider calls (transient 500, conflict on optimistic-lock patches, provider error). A Delete of the NodeClaim must be justified by the documented trigger computed from the scenario parameters. "+
 			"non-trivial = distinct (state, fault set) with a delete or an injected fault", maxN, bound)
 		r.Assumptions = []string{"duplicate Nodes for one NodeClaim are enumerated but a delete there is not judged (the code documents it as an invalid state)", "garbage collection is driven with one NodeClaim so that its client-go fan-out has a single worker"}
@@ -312,6 +395,7 @@ func init() {
 					c.run(i, run, l)
 				}
 				ex.Explore()
+				noteDiverged(l, ex, "prefix")
 				l.Transitions += int64(ex.Points)
 				if ex.Capped {
 					l.Outcome("fault-exploration-capped")
